@@ -806,28 +806,12 @@ def live_sched(live, streams, full):
 STATEMENT = ("independent:", "round-trip:")
 
 
-def last_frame_kind(data, uni):
-    """Kind of the last frame of a request/push stream (descriptive, for signatures)."""
-    buf = A.buffer.Buffer(data=data)
-    kind = "none"
-    try:
-        if uni:
-            buf.pull_uint_var()
-            buf.pull_uint_var()
-        while not buf.eof():
-            t = buf.pull_uint_var()
-            n = buf.pull_uint_var()
-            if t == 0x41:
-                return "WT"
-            buf.seek(min(buf.capacity, buf.tell() + n))
-            kind = {0: "DATA", 1: "HEADERS", 5: "PUSH_PROMISE"}.get(t, "type-0x%x" % t)
-    except A.buffer.BufferReadError:
-        return kind + "+partial"
-    return kind
-
-
 def ends_of(obs, sid):
     return sum(1 for s, evs in obs if s == sid for e in evs if e["end"])
+
+
+FRAME_CLASS = {"D": "DATA", "D2": "DATA", "H": "HEADERS", "H2": "HEADERS", "P": "PUSH_PROMISE", "U": "ignored-type",
+               "S": "SETTINGS", "W": "WEBTRANSPORT_STREAM"}
 
 
 def r_signature(clause, lib, header, tag, ln, canon, statement=True):
@@ -837,14 +821,15 @@ def r_signature(clause, lib, header, tag, ln, canon, statement=True):
     descs = header["descs"]
     facts = []
     if clause.endswith("end-of-stream") or clause == "model:truncated-end":
-        facts.append("last-frame=" + (descs[-1]["k"] + ("d" if descs[-1]["dyn"] else "")))
+        facts.append("last-frame=" + FRAME_CLASS[descs[-1]["k"]])
         facts.append("ends=%d/canonical=%d" % (ends_of(ln["obs"], 0), ends_of(canon["obs"], 0)))
         if header["trunc"]:
             facts.append("frame-cut-by-fin")
     elif clause.endswith("connection-closed") or clause == "model:closed":
         facts.append("closed=%s/canonical=%s" % (ln["closed"] or "-", canon["closed"] or "-"))
-        facts.append("dynamic-blocks=" + ("+".join(sorted({d["k"] for d in descs if d["dyn"]})) or "-"))
-        facts.append("encoder-stream=" + str(tag.get("enc", "canonical")))
+        dyn = {FRAME_CLASS[d["k"]] for d in descs if d["dyn"]}
+        late = tag.get("enc") == "late"
+        facts.append("waiting-for-encoder-stream=" + (("PUSH_PROMISE" if "PUSH_PROMISE" in dyn else "HEADERS") if dyn and late else "-"))
     else:
         facts.append("frames=" + seq_name(descs))
         if statement:
@@ -856,7 +841,7 @@ def v_signature(clause, group, ln):
     canon = group[0]
     facts = [canon["role"]]
     if "connection-closed" in clause:
-        facts.append("closed=%s/%s" % (ln["closed"], canon["closed"]))
+        facts.append("closed=%s/canonical=%s" % (ln["closed"] or "-", canon["closed"] or "-"))
         facts.append("reason=" + str(ln.get("reason", "")))
     else:
         facts.append("mode=" + ln["mode"].split(":")[0])
@@ -864,12 +849,12 @@ def v_signature(clause, group, ln):
 
 
 # ------------------------------------------------------------------------ main
-def m_config(name, L, client, extra=""):
-    return ("SPECIFICATION Spec\nCONSTANT Cfg = \"%s\"\nCONSTANT L = %d\nCONSTANT Client = %s\n"
-            "INVARIANT ChunkingIndependent\nINVARIANT Sane\n%s" % (name, L, "TRUE" if client else "FALSE", extra))
+def m_config(plan):
+    return ("SPECIFICATION Spec\nCONSTANT Plan <- %s\nCONSTANT EnumSet = \"none\"\n"
+            "INVARIANT ChunkingIndependent\nINVARIANT Sane\n" % plan)
 
 
-TRACE_CONST = 'CONSTANT Cfg = "req"\nCONSTANT L = 1\nCONSTANT Client = TRUE'
+TRACE_CONST = 'CONSTANT Plan <- PlanTrace\nCONSTANT EnumSet = "none"'
 
 
 def judge(check, lines, name, shards=None):
@@ -967,7 +952,7 @@ def report_v(check, groups, fails):
 
 
 def enumerate_seqs(check, which):
-    cfg = 'SPECIFICATION EnumSpec\nCONSTANT Cfg = "%s"\nCONSTANT L = 0\nCONSTANT Client = TRUE\n' % which
+    cfg = 'SPECIFICATION EnumSpec\nCONSTANT Plan <- PlanNone\nCONSTANT EnumSet = "%s"\n' % which
     r = check.run_tlc("H3Stream", cfg, name="H3Stream_enum", workers=1)
     seqs = []
     for p in r.prints:
@@ -1012,13 +997,9 @@ def run(check):
     rnd = random.Random(check.seed)
     thorough = not check.quick
     # (M) the theorem on the design, configurations in parallel with (R)/(V) driving
-    plans = [("req", 7, True, 3), ("req", 6, False, 2), ("push", 5, True, 2), ("reqenc", 5, True, 3),
-             ("two", 3, True, 3), ("uni", 2, True, 2)] if check.quick else \
-            [("req", 10, True, 6), ("req", 9, False, 4), ("push", 8, True, 4), ("push", 6, False, 2), ("reqenc", 8, True, 4),
-             ("reqenc", 6, False, 2), ("two", 4, True, 6), ("uni", 4, True, 3), ("uni", 3, False, 2)]
-    pool = ThreadPoolExecutor(max_workers=len(plans))
-    futs = [pool.submit(check.run_tlc, "H3Stream", m_config(n, L, c), name="H3Stream_M_%s_%s_%d" % (n, "client" if c else "server", L), workers=w)
-            for n, L, c, w in plans]
+    plan = "PlanQuick" if check.quick else "PlanThorough"        # defined in H3Stream.tla
+    pool = ThreadPoolExecutor(max_workers=1)
+    fut = pool.submit(check.run_tlc, "H3Stream", m_config(plan), name="H3Stream_M_" + plan, workers=8 if check.quick else 12)
 
     # (R)
     seqs = enumerate_seqs(check, "enum-thorough" if thorough else "enum-quick")
@@ -1048,11 +1029,10 @@ def run(check):
     check.sample({"binding": "V", "role": g[0]["role"], "policy": g[0]["policy"], "streams": g[0]["streams"], "kinds": g[0]["kinds"],
                   "modes": [ln["mode"] for ln in g][:8], "sent_head": [[s, [dict(e, b=None) for e in ev[:3]]] for s, ev in g[0]["sent"][:3]]})
 
-    for f in futs:
-        r = f.result()
-        if r.violated:
-            check.model_violation(r, "H3Stream")
+    r = fut.result()
     pool.shutdown()
+    if r.violated:
+        check.model_violation(r, "H3Stream")
 
     check.cov["exhaustive"] = False
     check.cov["rule"] = ("(M) every frame sequence with 1- and 2-byte varints up to L bytes per stream x every splitting x every "
